@@ -90,6 +90,11 @@ def gen_plan(rng, tier, config, opts):
         scripts.append(steps)
         lines.append('# ref %d %s' % (i, ' ; '.join(ref)))
         lines.append('# last %d %s' % (i, last))
+    # what the storage of the contexts other than the library's own holds before their first initialisation (the solo
+    # references run in the zero-initialised static context of a fresh process)
+    for i in range(1, k):
+        if rng.chance(0.5):
+            lines.append('CTXFILL %d %d' % (i, rng.choice([0xA5, 0xFF, 1, 0x5A, rng.randint(1, 255)])))
     # the scheduler: interleave at step granularity (sometimes in long runs, sometimes step by step)
     pos = [0] * k
     burst = rng.choice([1, 1, 2, 5, 1000])
